@@ -72,7 +72,7 @@ package corerad
 //@   at call time.After(w): assert B1 [C10]: w == ms(50) * ghost.timeouts ; ghost.timeouts = ghost.timeouts + 1
 //@   at call MessagesReceivedInvalidTotal(v, labels): ghost.bad = ghost.bad + 1
 //@   ensures E1 [C09]: result2 == nil ==> cm != nil && cm.HopLimit == 255 && result0 == m && result1 == host
-//@   ensures E5 [C09]: result2 == nil ==> ghost.lastHop == 255 && result0 != nil
+//@   ensures E5 [C09]: result2 == nil ==> ghost.lastHop == 255 && result0 != nil && msgOK(result0)
 //@   ensures E2 [C09,C10]: result2 == errRetriesExhausted ==> ghost.timeouts == 5
 //@   ensures E3 [C09]: ghost.invalid == old(ghost.invalid) + ghost.bad
 //@   ensures E4 [C10]: result2 != nil ==> result0 == nil
@@ -145,10 +145,13 @@ package corerad
 //@   ghost local trigger Int
 //@   ghost local awaiting Bool
 //@   ghost local started Bool
-//@   requires P0: ctx != nil && a.minDelayBetweenRAs > 0 && a.minDelayBetweenRAs <= secs(3600)
+//@   requires P0: ctx != nil && a.minDelayBetweenRAs > 0 && a.minDelayBetweenRAs <= secs(3600) && advOK(a) && ifiOK(a.cfg) && conn != nil
 //@   assigns ghost.now, ghost.done, ghost.scheduled
 //@   at call time.Now() (t) when !ghost.started: ghost.lastFire = t ; ghost.started = true
 //@   at call time.Now() (t) when ghost.awaiting: ghost.trigger = t ; ghost.awaiting = false
+//@   loop 1 invariant M9: a != nil && advOK(a)
+//@   loop 1 invariant M8: ifiOK(a.cfg)
+//@   loop 1 invariant M7: conn != nil && ctx != nil
 //@   loop 1 invariant M0: ghost.started && a.minDelayBetweenRAs > 0 && a.minDelayBetweenRAs <= secs(3600) && timeSane(ghost.now)
 //@   loop 1 invariant M1 [C06]: ghost.lastFire <= lastMulticast
 //@   loop 1 invariant M2 [C06]: lastMulticast <= ghost.now + a.minDelayBetweenRAs
@@ -177,7 +180,9 @@ package corerad
 //@   assigns ghost.done
 //@   opt safety [C10]
 
+//@ macro msgOK(m) = m != nil && m.val > 0 && (isType(m, "*ndp.RouterAdvertisement") ==> optsOK(as(m, "*ndp.RouterAdvertisement").Options))
 //@ funcparam corerad.(*listener).Listen.onMessage(msg) (err)
+//@   requires R1: msgOK(msg.Message)
 //@   assigns everything
 //@   opt preserves ghost.egNeeds, heap(corerad.listener), heap(corerad.Context), heap(corerad.Metrics)
 
@@ -199,7 +204,9 @@ package corerad
 //@ func (*Advertiser).advertise$3$1
 //@   ghost local sends Int
 //@   opt capture CAP
-//@   requires CAP [C10]: ctx != nil
+//@   opt refines funcparam:corerad.(*listener).Listen.onMessage
+//@   opt refinetags [C07,C09]
+//@   requires CAP [C10]: ctx != nil && a != nil && advOK(a) && ifiOK(a.cfg)
 //@   opt cancelable [C10]
 //@   assigns everything
 //@   at send ipC(v): ghost.sends = ghost.sends + 1
@@ -209,13 +216,13 @@ package corerad
 // Scheduled transmit workers.
 //@ func (*Advertiser).schedule$1
 //@   opt capture CAP
-//@   requires CAP [C10]: ctx != nil
+//@   requires CAP [C10]: ctx != nil && a != nil && advOK(a) && ifiOK(a.cfg) && conn != nil
 //@   opt cancelable [C10]
 //@   assigns everything
 //@   opt safety [C10]
 //@ func (*Advertiser).schedule$2
 //@   opt capture CAP
-//@   requires CAP [C10]: ctx != nil
+//@   requires CAP [C10]: ctx != nil && a != nil && advOK(a) && ifiOK(a.cfg) && conn != nil
 //@   opt cancelable [C10]
 //@   assigns everything
 //@   opt safety [C10]
